@@ -76,6 +76,8 @@ Check c19_results_complete_at_end_of_stream :
     is_final packet (Ret x) = true ->
     results packet (aconv packet parse ver_of is_keepalive version m verify pong fuel c s rs ws cancels wsched acc)
     = held packet s ++ rets packet (session packet parse ver_of is_keepalive version m verify pong fuel (fbuf s) (strip rs ++ [Eof])).
+Check c19_parked_reply_is_conserved : forall ws pw r pw' ws' w,
+  flush pw ws = (r, pw', ws', w) -> pw = w ++ pw' /\ (r = FDone -> pw' = []).
 Print Assumptions c19_cancel_safe.
 Print Assumptions c19_resume_equals_fresh.
 Print Assumptions c19_suspension_invariant.
@@ -87,3 +89,4 @@ Print Assumptions c19_conversation_wire_is_whole_frames.
 Print Assumptions c19_model_state_is_the_struct.
 Print Assumptions c19_results_are_the_connections.
 Print Assumptions c19_results_complete_at_end_of_stream.
+Print Assumptions c19_parked_reply_is_conserved.
